@@ -3,6 +3,9 @@ import Pff.Model.Vote
 import Pff.Model.Diff
 import Pff.Model.Scan
 import Pff.Model.Tamper
+import Pff.Model.Layout
+import Pff.Model.GF
+import Pff.Model.Facade
 /-!
 Line-protocol driver: one request per line on stdin, one canonical reply per line on stdout.
 Run with `lake env lean --run Pff/Driver.lean`. Byte strings are hex ("-" = empty); lists of
@@ -59,8 +62,93 @@ def parseTamperParams (mode blockCoin burst header bs : String) : Option Pff.Tam
   let bs ← bs.toNat?
   some { mode := m, blockCoin := bc ≠ 0, burst := bu ≠ 0, header := h, blocksize := bs }
 
+/-- stub hash / encoder shared with the harness (recognisable, length-exact) -/
+def stubH (hl : Nat) (m : List Nat) : List Nat := List.replicate hl ((m.sum + m.length) % 256)
+def stubEnc (mbs k : Nat) (m : List Nat) : List Nat := List.replicate (mbs - k) ((m.sum * 3 + k) % 256)
+
+def showBlocks (l : List Pff.Layout.Block) : String :=
+  if l.isEmpty then "-" else " ".intercalate (l.map (fun b => s!"{b.off}:{b.len}:{b.k}"))
+
+def showAsm (l : List Pff.Layout.AsmBlock) : String :=
+  if l.isEmpty then "-" else " ".intercalate (l.map (fun b => s!"{b.off}:{b.msg.length}:{b.k}:{toHex b.hash}:{toHex b.ecc}"))
+
+def parseFloatBits (s : String) : Option Float := s.toNat?.map (fun n => Float.ofBits (UInt64.ofNat n))
+
+open Pff.GF in
+def codecOf (p : Params) (algo n k fcr : Nat) : Pff.Facade.Codec (Elt p) :=
+  { algo := algo, n := n, k := k, pw := Elt.gpow p, fcr := fcr }
+
+open Pff.GF in
+def eltList (p : Params) (l : List Nat) : List (Elt p) := l.map (Elt.ofNat p)
+open Pff.GF in
+def natList {p : Params} (l : List (Elt p)) : List Nat := l.map Elt.toNat
+
+/-- run `f` on the codec selected by `--ecc_algo` (field and fcr from the translated table) -/
+def withCodec (algo n k : Nat) (f : {p : Pff.GF.Params} → Pff.Facade.Codec (Pff.GF.Elt p) → String) : String :=
+  match Pff.Consts.codecs.find? (fun c => c.1 == algo) with
+  | some (_, gen, prim, fcr) =>
+    if prim == Pff.GF.pA.prim && gen == Pff.GF.pA.gen then f (codecOf Pff.GF.pA algo n k fcr)
+    else if prim == Pff.GF.pB.prim && gen == Pff.GF.pB.gen then f (codecOf Pff.GF.pB algo n k fcr)
+    else "bad-field"
+  | none => "bad-algo"
+
 def handle (toks : List String) : String :=
   match toks with
+  | ["gfmul", prim, a, b] =>
+    match prim.toNat?, a.toNat?, b.toNat? with
+    | some prim, some a, some b =>
+      if prim == Pff.GF.pA.prim then toString (Pff.GF.tmul Pff.GF.pA a b)
+      else if prim == Pff.GF.pB.prim then toString (Pff.GF.tmul Pff.GF.pB a b) else "bad-field"
+    | _, _, _ => "bad-op"
+  | ["gfmulrow", prim, a] =>
+    -- the whole row a * b, b = 0..255
+    match prim.toNat?, a.toNat? with
+    | some prim, some a =>
+      if prim == Pff.GF.pA.prim then showNums ((List.range 256).map (Pff.GF.tmul Pff.GF.pA a))
+      else if prim == Pff.GF.pB.prim then showNums ((List.range 256).map (Pff.GF.tmul Pff.GF.pB a)) else "bad-field"
+    | _, _ => "bad-op"
+  | ["enc", algo, n, k0, k, msg] =>
+    match algo.toNat?, n.toNat?, k0.toNat?, k.toNat?, parseHex msg with
+    | some algo, some n, some k0, some k, some m =>
+      withCodec algo n k0 (fun {p} c => toHex (natList (Pff.Facade.encode c (eltList p m) k)))
+    | _, _, _, _, _ => "bad-op"
+  | ["chk", algo, n, k0, k, msg, ecc] =>
+    match algo.toNat?, n.toNat?, k0.toNat?, k.toNat?, parseHex msg, parseHex ecc with
+    | some algo, some n, some k0, some k, some m, some e =>
+      withCodec algo n k0 (fun {p} c => if Pff.Facade.check c (eltList p m) (eltList p e) k then "1" else "0")
+    | _, _, _, _, _, _ => "bad-op"
+  | ["ksize", mbs, rate] =>
+    match mbs.toNat?, parseFloatBits rate with
+    | some mbs, some r => toString (Pff.Layout.msgSize mbs r)
+    | _, _ => "bad-op"
+  | ["fscale", x, xmin, xmax, a, b] =>
+    match x.toNat?, xmin.toNat?, xmax.toNat?, parseFloatBits a, parseFloatBits b with
+    | some x, some xmin, some xmax, some a, some b => toString (Pff.Layout.featureScaling x xmin xmax a b).toBits.toNat
+    | _, _, _, _, _ => "bad-op"
+  | ["layoutw", mbs, hdr, size, r1, r2, r3] =>
+    -- generation partition of the whole-file tool for a file of `size` bytes
+    match mbs.toNat?, hdr.toNat?, size.toNat?, parseFloatBits r1, parseFloatBits r2, parseFloatBits r3 with
+    | some mbs, some hdr, some size, some r1, some r2, some r3 =>
+      showBlocks (Pff.Layout.layoutGen (Pff.Layout.kOfFloat mbs hdr size r1 r2 r3) size (size + 1) 0)
+    | _, _, _, _, _, _ => "bad-op"
+  | ["asmw", mbs, hdr, hl, r1, r2, r3, content] =>
+    -- generate the track with the stub hash/encoder, then read it back
+    match mbs.toNat?, hdr.toNat?, hl.toNat?, parseFloatBits r1, parseFloatBits r2, parseFloatBits r3, parseHex content with
+    | some mbs, some hdr, some hl, some r1, some r2, some r3, some c =>
+      let kOf := Pff.Layout.kOfFloat mbs hdr c.length r1 r2 r3
+      let track := Pff.Layout.genTrack (stubH hl) (stubEnc mbs) kOf c
+      s!"{toHex track} {showAsm (Pff.Layout.assemble kOf hl mbs c track (c.length + 1) 0 0)}"
+    | _, _, _, _, _, _, _ => "bad-op"
+  | ["layouth", k, hdr, size] =>
+    match k.toNat?, hdr.toNat?, size.toNat? with
+    | some k, some hdr, some size => showBlocks (Pff.Layout.layoutHeader k hdr size (size + 1) 0)
+    | _, _, _ => "bad-op"
+  | ["asmh", mbs, k, hdr, hl, content] =>
+    match mbs.toNat?, k.toNat?, hdr.toNat?, hl.toNat?, parseHex content with
+    | some mbs, some k, some hdr, some hl, some c =>
+      let track := Pff.Layout.genTrackHeader (stubH hl) (stubEnc mbs) k hdr c
+      s!"{toHex track} {showAsm (Pff.Layout.assembleHeader k hl mbs hdr c track (c.length + 1) 0 0)}"
+    | _, _, _, _, _ => "bad-op"
   | ["tamper", mode, blockCoin, burst, header, bs, content, rho] =>
     match parseTamperParams mode blockCoin burst header bs, parseHex content, parseNums rho with
     | some P, some c, some ρ =>
